@@ -59,6 +59,8 @@ def parse(cases, impl, model):
         m = ml[n] if n < len(ml) else None
         if c.startswith("S "):
             cur = {"head": c, "rows": [], "pending": None, "leak": False}; variants.append(cur); continue
+        if c == "Y":
+            variants.append({"head": "Y", "rows": [], "pending": None, "leak": False, "stack": i}); cur = None; continue
         if c.startswith("LEAK"):
             if cur: cur["leak"] = True
             continue
@@ -86,7 +88,7 @@ def check_variant(v):
     """oracle + correspondence for one executed history; returns (violations, tie_breaks) where each violation is
     (base_signature, text, row_index)"""
     viol, tie = [], []
-    prev_bad = 0
+    prev_bad = 0; own_bad = False
     for k, (c, i, m) in enumerate(v["rows"]):
         tag = c.split()[0]; fi = fields(i); fm = fields(m) if m else None
         if fi is None:
@@ -98,7 +100,7 @@ def check_variant(v):
         if res == "inconsistent": viol.append(("%s:inconsistent-answers" % name, "%s gives contradictory answers" % name, k))
         for sl, s in enumerate(st.split()):
             why = slot_ok(s)
-            if why: viol.append(("%s:ownership" % name, "after %s (%s) object %d violates the ownership invariant: %s" % (name, res, sl, why), k)); break
+            if why and not own_bad: own_bad = True; viol.append(("%s:ownership" % name, "after %s (%s) object %d violates the ownership invariant: %s" % (name, res, sl, why), k)); break
         if extra[0] == "CHANGED": viol.append(("%s:failed-call-changed-object" % name, "%s threw but left the object neither unchanged nor empty" % name, k))
         if tag in "XA" and res == "ok" and extra[1] not in ("-", "empty"): viol.append(("%s:moved-from-not-empty" % name, "after %s the source object is not empty (%s)" % (name, extra[1]), k))
         b = int(tot.split()[2])
@@ -120,13 +122,15 @@ def history(v, upto=None):
     return [c for c, _, _ in rows]
 
 
-def shrink(ctx, exe, head, sig, nops_guess=26):
+def shrink(ctx, exe, head, sig, opsdir, nops_guess=26):
     """greedy op removal while the same base signature reproduces; returns (kept op lines, tags)"""
     _, seq, fail, rfop, rfk, rfa = head.split()
     only = "%s %s %s %s %s" % (seq, fail, rfop, rfk, rfa)
+    opsfile = os.path.join(opsdir, "ops_%s.txt" % seq)
+    if not os.path.exists(opsfile): return None
     keep = ["1"] * nops_guess
     def attempt(mask, n):
-        rc, err, cases, impl, _ = run_harness(ctx, exe, "shr%d" % n, 0, 0, {"PSV_ONLY": only, "PSV_KEEP": "".join(mask)}, timeout=120)
+        rc, err, cases, impl, _ = run_harness(ctx, exe, "shr%d" % n, 0, 0, {"PSV_ONLY": only, "PSV_KEEP": "".join(mask), "PSV_OPSFILE": opsfile}, timeout=120)
         model = cases + ".model"; ctx.run_driver("C20", cases, model)
         vs = parse(cases, impl, model)
         if not vs: return None
@@ -176,6 +180,12 @@ def run(ctx, only_seq=None):
         if os.path.exists(stats):
             for k, v in json.load(open(stats)).items(): stats_all[k] = stats_all.get(k, 0) + v
         for v in variants:
+            if v["head"] == "Y":
+                st = (v.get("stack") or "STACK missing 0 0 0").split()
+                if st[1] != "ok" or st[2:4] != ["0", "0"] or st[4] != "0":
+                    ctx.report("stacking_constructor:leak", {"history": "a(f), b(f), c(f); splinetable s({&a,&b,&c},{0,1,2},2); destroy all", "impl": " ".join(st)},
+                               "C20 oracle: after the stacking constructor and destruction of every object %s block(s) / %s byte(s) from the allocator were never returned (result %s): the two extrapolated padding tables are never deleted" % (st[2], st[3], st[1]))
+                continue
             viol, tie = check_variant(v)
             evals += len(v["rows"])
             prev_state = ""
@@ -190,7 +200,7 @@ def run(ctx, only_seq=None):
             for base, text, k in viol:
                 if base in reported: continue
                 reported.add(base)
-                sv = shrink(ctx, exe, v["head"], base) if not base.startswith("lsan:") else None
+                sv = shrink(ctx, exe, v["head"], base, os.path.dirname(cases)) if not base.startswith("lsan:") else None
                 hist = history(sv) if sv else history(v, k)
                 tags = "".join(h.split()[0] for h in hist if h.split()[0] != "Z")
                 sig = base + ":" + tags if sv else base
@@ -211,7 +221,7 @@ def run(ctx, only_seq=None):
         sig = crash_signature(err, last)
         if sig not in reported:
             reported.add(sig)
-            sv = shrink(ctx, exe, last["head"], sig) if last else None
+            sv = shrink(ctx, exe, last["head"], sig, os.path.dirname(cases)) if last else None
             hist = (history(sv) + [sv["pending"]]) if sv and sv.get("pending") else ((history(last) + [last["pending"] or "?"]) if last else [])
             tags = "".join(h.split()[0] for h in hist)
             ctx.report(sig + ":" + tags, {"variant": last["head"] if last else None, "history": hist, "stderr": err[-2500:], "harness_rc": rc},
